@@ -921,6 +921,7 @@ class DiffAdditiveMixin(DiffKernelMixin):
         k0, dk0 = self._get_k0_dk0_train(X, Y, eval_gradient)
         if eval_gradient:
             derivs = self.get_zero_derivs(X, Y)
+            num_scale = 0 if self.hyperparameter_length_scale.fixed else self.num_scale
         sk = []
         for i in range(self.order):
             sk.append(np.sum(k0 ** (i + 1), axis=-1))
@@ -934,7 +935,7 @@ class DiffAdditiveMixin(DiffKernelMixin):
         for n in range(self.order + 1):
             res += self.scale[n] * en[n]
             if eval_gradient and not self.hyperparameter_scale.fixed:
-                derivs[:, :, self.num_scale + n] = self.scale[n] * en[n]
+                derivs[:, :, num_scale + n] = self.scale[n] * en[n]
         kernel = res
         if get_sub_kernels:
             return kernel, en
